@@ -148,7 +148,9 @@ impl Property for GramProp {
         if case.kind != "gram" {
             return Verdict::discard("case kind not applicable to this property", case.t0().to_string());
         }
-        let g = build(&case.bytes);
+        // C14 also injects its faults into a form the lexer accepts although SAS does not (an iterative %do with a trailing
+        // %while / %until): it is not part of C12's "well-formed" programs
+        let g = if self.id == "C14" { let mut g = G::new(&case.bytes); g.lenient = true; g.program(); g } else { build(&case.bytes) };
         let src = g.out.clone();
         let mut vd = Verdict { key: src.clone(), ..Default::default() };
         for f in &g.feats {
